@@ -89,6 +89,13 @@ def cases(tier, seed):
             va = [dict(keys=list(reversed(ka)), how='perm'), dict(keys=[0] + ka, how='pad'), dict(keys=ka + [15], how='pad'), dict(keys=None, how='asfullmv')]
             out.append(dict(kind='unary', cfg=cfg, op='inv', ka=ka, va=va))
             out.append(dict(kind='binary', cfg=cfg, op='div', ka=[1, 2], kb=ka, va=[dict(keys=[2, 1], how='perm')], vb=va[:3]))
+    # d = 6 (the iterative inverse): operands WITH a scalar part, stored with the scalar first / second / last and padded
+    for cfg in (dict(p=6), dict(p=4, q=1, r=1)):
+        for ka in ([0, 1, 3], [0, 6, 24]):
+            va = [dict(keys=[ka[1], ka[0], ka[2]], how='perm'), dict(keys=[ka[2], ka[1], ka[0]], how='perm'), dict(keys=[ka[1], ka[2], 63, ka[0]], how='pad')]
+            out.append(dict(kind='unary', cfg=cfg, op='inv', ka=ka, va=va))
+        out.append(dict(kind='binary', cfg=cfg, op='div', ka=[1, 2], kb=[0, 1, 3], va=[dict(keys=[2, 1], how='perm')],
+                        vb=[dict(keys=[3, 0, 1], how='perm'), dict(keys=[1, 3, 0], how='perm')]))
     # the remaining public methods (duals by kind, norms, powers, grade selection, map, dense forms)
     for cfg in (dict(p=2), dict(p=1, q=1), dict(p=3), dict(p=2, r=1), dict(p=1, q=2), dict(p=3, r=1), dict(p=2, r=2)):
         d = sum(cfg.values())
